@@ -988,6 +988,8 @@ spifconf_parse_line(FILE * fp, spif_charptr_t buff)
                   file_poke_fp(fp);
                   file_poke_preproc(1);
                   file_poke_outfile(outfile);
+              } else {
+                  FREE(outfile);
               }
           } else {
               if (file_peek_skip()) {
